@@ -1,14 +1,16 @@
 #!/bin/bash
 # usage: tools/seedw2.sh <verif checkout> <outdir> <pid> [i ...]
-# Runs the checks of <verif checkout> (own property only) on the wave-2 seeded changes /tmp/mut-<pid>/_mut2/patch<i>.diff.
+# Runs the checks of <verif checkout> (own property only) on the seeded changes of wave $WAVE (default 2):
+# /tmp/mut-<pid>/_mut2/patch<i>.diff for wave 2, /tmp/mut<W>-<pid>/_mut<W>/patch<i>.diff for later waves.
 # One lock per scratch worktree, so that several streams (old checkout / live checkout) can run side by side.
 HERE=$1; OUTD=$2; pid=$3; shift 3
 ID=$(echo $pid | tr a-z A-Z)
-WT=/tmp/mut-$pid
+W=${WAVE:-2}
+if [ "$W" = 2 ]; then WT=/tmp/mut-$pid; else WT=/tmp/mut$W-$pid; fi
 mkdir -p $OUTD
 [ $# -eq 0 ] && set -- 1 2 3 4 5
 for i in "$@"; do
-  P=$WT/_mut2/patch$i.diff; D=$WT/_mut2/demo$i.py; N=$pid-w2-$i
+  P=$WT/_mut$W/patch$i.diff; D=$WT/_mut$W/demo$i.py; N=$pid-w$W-$i
   [ -f $P ] || continue
   (
   flock 9
@@ -26,5 +28,5 @@ for i in "$@"; do
   echo "$out" | grep -a -m4 -E "^  (case|expected|observed|detail)|HARNESS" | cut -c1-260 | sed 's/^/      /'
   } > $OUTD/$N.txt 2>&1
   git -C $WT checkout -q -- plasTeX
-  ) 9>/tmp/lock-mut-$pid
+  ) 9>/tmp/lock-mut$W-$pid
 done
